@@ -383,3 +383,34 @@ Proof.
   destruct (H2 f1 f1 t t (le_n _) Rt At (rrel_nofuel _ _ Hr)) as [f2 Hr2].
   exists f2. eapply rrel_trans; eauto.
 Qed.
+
+(* ---------- same-index corollaries ---------- *)
+Section Cong'.
+Variable cfg : config.
+Variable E1 E2 : env.
+Notation sim := (sim cfg E1 E2).
+Lemma cong_seq' A n p q : sim A n p q -> sim A n (PSequence p) (PSequence q).
+Proof. intros. eapply sim_le; [|apply cong_seq; eauto]. lia. Qed.
+Lemma cong_opt' A n p q : sim A n p q -> sim A n (POptional p) (POptional q).
+Proof. intros. eapply sim_le; [|apply cong_opt; eauto]. lia. Qed.
+Lemma cong_then' A n p1 q1 p2 q2 : sim A n p1 q1 -> sim A n p2 q2 -> sim A n (PAndThen p1 p2) (PAndThen q1 q2).
+Proof. intros. eapply sim_le; [|apply cong_then; eauto]. lia. Qed.
+Lemma cong_else' A n p1 q1 p2 q2 : sim A n p1 q1 -> sim A n p2 q2 -> sim A n (POrElse p1 p2) (POrElse q1 q2).
+Proof. intros. eapply sim_le; [|apply cong_else; eauto]. lia. Qed.
+Lemma cong_ifna' A n p1 q1 p2 q2 : sim A n p1 q1 -> sim A n p2 q2 -> sim A n (PIfNonAtomic p1 p2) (PIfNonAtomic q1 q2).
+Proof. intros. eapply sim_le; [|apply cong_ifna; eauto]. lia. Qed.
+Lemma cong_rule' A n r p q : sim A n p q -> sim A n (PRule r p) (PRule r q).
+Proof. intros. eapply sim_le; [|apply cong_rule; eauto]. lia. Qed.
+Lemma cong_atomic' A Ain n a p q : (Ain = true -> a <> NonAtomic) -> sim Ain n p q -> sim A n (PAtomic a p) (PAtomic a q).
+Proof. intros. eapply sim_le; [|eapply cong_atomic; eauto]. lia. Qed.
+Lemma cong_look' A n b p q : sim A n p q -> sim A n (PLookahead b p) (PLookahead b q).
+Proof. intros. eapply sim_le; [|apply cong_look; eauto]. lia. Qed.
+Lemma cong_push' A n p q : sim A n p q -> sim A n (PStackPush p) (PStackPush q).
+Proof. intros. eapply sim_le; [|apply cong_push; eauto]. lia. Qed.
+Lemma cong_roe' A n p q : sim A n p q -> sim A n (PRestoreOnErr p) (PRestoreOnErr q).
+Proof. intros. eapply sim_le; [|apply cong_roe; eauto]. lia. Qed.
+Lemma cong_rep' A n p q : sim A n p q -> sim A n (PRepeat p) (PRepeat q).
+Proof. intros. eapply sim_le; [|apply cong_rep; eauto]. lia. Qed.
+Lemma cong_call_left' A n k p q : E1 k = Some p -> sim A n p q -> sim A n (PCall k) q.
+Proof. intros. eapply sim_le; [|eapply cong_call_left; eauto]. lia. Qed.
+End Cong'.
